@@ -20,7 +20,7 @@ def _c10_func(fun, tier="quick", **kw):
 
 
 _C10_HIST_OPTS = {"solver": "z3-new-t", "timeout_ms": 30000, "thorough": {"budget_s": 6000}}
-_C10_FUNC_OPTS = {"solver": "cvc5", "timeout_ms": 120000}
+_C10_FUNC_OPTS = {"solver": "cvc5", "timeout_ms": 600000}
 
 PROPS["C10"] = {
     "bounds": "histories from the empty state of exactly 3 events (all shorter ones are their prefixes; every assertion is checked after each event) over {tick, point a1, point b1} (quick: all except those starting b1,a1 or b1,b1, which mirror a1,b1 / a1,a1 and run in the thorough tier) with regex ^(a|b)[0-9]$ and outFmt $1, function sum, Interval 10, symbolic Wait < 2^16, symbolic uint32 timestamps, unconstrained float64 values, symbolic non-decreasing clock (uint32 start, 16-bit advances, now >= Wait), tick instant anywhere between the previous tick instant and the clock; histories of 2 events for each of the ten functions, for 3-4 names incl. two names sharing a key and a non-matching name with the cache on, for outFmt without capture group, derive with two output names in play over the pinned 4-event histories (point a, point b, point b, tick) and (b, b, a, tick) with 16-bit timestamps, for Interval symbolic in [1,2^16) and Interval in {1,60}; thorough: 3 events for every function, with symbolic Interval, with 3 names + cache, and 4 events over {tick, point a1}; one-step induction: arbitrary pre-state satisfying the invariant (tsList strictly ascending = open first-level buckets, buckets holding a processor start at or above the previous cutoff+1 <= now-Wait+1) with <= 2 (thorough 3) first-level buckets x key subsets of {a,b}, arbitrary bucket starts and accumulated sums, one arbitrary event, function sum, Interval 10 (thorough symbolic): covers histories of any length with at most that many simultaneously open first-level buckets; functions in isolation: 1..3 values per bucket, finite float64 of magnitude <= 1e300 with symbolic uint32 timestamps",
